@@ -751,7 +751,7 @@ impl Swift {
     fn write_comment(&mut self, w: &mut dyn Write, indent: usize, comment: &str) -> io::Result<()> {
         // one doc string can span several lines (block doc comments, `#[doc = ".."]`): every line
         // has to be a comment of its own
-        for line in comment.trim_end().split('\n') {
+        for line in super::comment_lines(comment.trim_end()) {
             writeln!(w, "{}/// {}", "\t".repeat(indent), line.trim_end())?;
         }
         Ok(())
